@@ -181,7 +181,7 @@ class Slicer:
                     return self._payload("some", base)
                 if base[0] == "agg" and base[2] == var and idx < len(base[3]):
                     return base[3][idx]
-                return ("field", e, name if name is not None else str(idx), pe.get("adt"))
+                return mk_field(e, name if name is not None else str(idx), pe.get("adt"))
             if "adt" in pe and name is not None:
                 return ("field", e, name, pe.get("adt"))
             return ("tfield", e, idx)
@@ -434,6 +434,18 @@ def mk_field(e, name, adt):
         return e[3][e[4].index(name)]
     if e[0] == "phi":
         return ("phi", [mk_field(x, name, adt) for x in e[1]])
+    if e[0] == "downcast":
+        # (phi(A{..} | B{..}) as A).f : only the members built as variant A can be read through the downcast
+        base = e[1]
+        while base[0] == "mutlocal":
+            base = base[2]
+        if base[0] == "agg" and base[2] == e[2] and name in base[4]:
+            return base[3][base[4].index(name)]
+        if base[0] == "phi" and base[1] and all(m[0] == "agg" for m in base[1]):
+            ms = [m for m in base[1] if m[2] == e[2] and name in m[4]]
+            if ms:
+                vals = [m[3][m[4].index(name)] for m in ms]
+                return vals[0] if len(vals) == 1 else ("phi", vals)
     return ("field", e, name, adt)
 
 
